@@ -330,3 +330,46 @@ for _tag, _res, _close, _free in (
         name=f"assign_termini.cyclic.{_tag}",
         native=False,
     )
+
+
+# ---------------------------------------------------------------- hidden chain ends (biomolecule.set_termini)
+# A residue that carries OXT in the middle of a chain ends a hidden chain: the chain is split there and BOTH pieces have
+# their termini assigned again - with the options of the run, like every other chain (assign_termini mocked: its own
+# contracts are above).  Two shapes: one hidden end, no hidden end.
+def STRES(i, oxt, cterm):
+    ents = [("N", Obj("pdb2pqr.structures:Atom", name=Const("N"), chain_id=Const("A")))]
+    if oxt:
+        ents.append(("OXT", Obj("pdb2pqr.structures:Atom", name=Const("OXT"), chain_id=Const("A"))))
+    return Named(f"s{i}", Obj("pdb2pqr.aa:GLY", name=Const("GLY"), chain_id=Const("A"), is_c_term=Const(cterm), is_n_term=Const(0),
+                              map=DictOf(*ents), atoms=Items()))
+
+
+def _set_termini(tag, residues, ens):
+    CH = Named("ch0", Obj("pdb2pqr.structures:Chain", chain_id=Const("A"), residues=Items(*residues)))
+    contract(
+        "pdb2pqr.biomolecule:Biomolecule.set_termini", ["C02", "C01"],
+        params={"self": Obj("pdb2pqr.biomolecule:Biomolecule", chains=Items(CH), chainmap=DictOf(("A", Ref("ch0")))),
+                "neutraln": Bool, "neutralc": Bool},
+        requires=[],
+        ensures=[
+            # every assignment of termini - first pass and after a split - is made with the options of this run
+            "forall(calls_of('assign_termini'), lambda c: c.args['neutraln'] is neutraln and c.args['neutralc'] is neutralc)",
+        ] + ens,
+        trace={"pdb2pqr.biomolecule:Biomolecule.assign_termini": None},
+        name=f"set_termini.{tag}", native=False, budget=5000,
+    )
+
+
+_set_termini("hidden_end", [STRES(0, False, 0), STRES(1, True, 0), STRES(2, False, 0), STRES(3, True, 1)], [
+    # the chain is split after the residue with OXT; the pieces keep their order; both are (re)assigned after the split
+    "len(self.chains) == 2 and len(self.chains[0].residues) == 2 and self.chains[0].residues[0] is s0 "
+    "and self.chains[0].residues[1] is s1",
+    "self.chains[1] is ch0 and len(ch0.residues) == 2 and ch0.residues[0] is s2 and ch0.residues[1] is s3",
+    "self.chains[0].chain_id != 'A' and s0.chain_id == self.chains[0].chain_id and s1.chain_id == self.chains[0].chain_id",
+    "len(calls_of('assign_termini')) == 3",
+    "exists(calls_of('assign_termini')[1:], lambda c: c.args['chain'] is ch0) and "
+    "exists(calls_of('assign_termini')[1:], lambda c: c.args['chain'] is self.chains[0])",
+])
+_set_termini("no_hidden_end", [STRES(0, False, 0), STRES(1, True, 1)], [
+    "len(self.chains) == 1 and len(ch0.residues) == 2 and len(calls_of('assign_termini')) == 1",
+])
